@@ -92,6 +92,72 @@ def is_catch_all(p):
     return p.get("p") == "wild" or (p.get("p") == "bind" and "sub" not in p)
 
 
+
+def _strip_pat(p):
+    while isinstance(p, dict):
+        k = p.get("p")
+        if k == "ref":
+            p = p["pat"]
+        elif k == "bind" and "sub" in p:
+            p = p["sub"]
+        else:
+            break
+    return p
+
+
+def _ctor_of(p):
+    """(def-path, is_constructor) of a struct / tuple-struct / unit-variant pattern."""
+    k = p.get("p")
+    if k in ("struct", "tstruct"):
+        return p["path"].get("def"), True
+    if k == "expr" and "path" in p:
+        kind = p["path"].get("kind", "")
+        return p["path"].get("def"), ("Ctor" in kind or "Variant" in kind)
+    return None, False
+
+
+def pats_disjoint(p, q):
+    """True only when no value can match both patterns (syntactic, conservative: False = may overlap)."""
+    p, q = _strip_pat(p), _strip_pat(q)
+    if not isinstance(p, dict) or not isinstance(q, dict):
+        return False
+    kp, kq = p.get("p"), q.get("p")
+    if kp == "or":
+        return all(pats_disjoint(x, q) for x in p["pats"])
+    if kq == "or":
+        return all(pats_disjoint(p, x) for x in q["pats"])
+    if kp in ("wild", "bind") or kq in ("wild", "bind"):
+        return False
+    if kp == "tuple" and kq == "tuple":
+        if len(p["pats"]) != len(q["pats"]):
+            return False
+        return any(pats_disjoint(a, b) for a, b in zip(p["pats"], q["pats"]))
+    dp, cp = _ctor_of(p)
+    dq, cq = _ctor_of(q)
+    if dp and dq and cp and cq:
+        if dp != dq:
+            return True
+        if kp == "tstruct" and kq == "tstruct" and len(p["pats"]) == len(q["pats"]):
+            return any(pats_disjoint(a, b) for a, b in zip(p["pats"], q["pats"]))
+        if kp == "struct" and kq == "struct":
+            fq = {f["f"]: f["pat"] for f in q["fields"]}
+            return any(f["f"] in fq and pats_disjoint(f["pat"], fq[f["f"]]) for f in p["fields"])
+        return False
+    if kp == "expr" and kq == "expr" and "v" in p and "v" in q and p.get("lk") == q.get("lk"):
+        return p["v"] != q["v"]
+    return False
+
+
+def _earlier_arms_not_taken(scrut, arms, i):
+    """Formulas ¬(arm_j taken) for the earlier arms j < i that may overlap arm i (first-match semantics)."""
+    out = []
+    for j in range(i):
+        if pats_disjoint(arms[j]["pat"], arms[i]["pat"]):
+            continue
+        out.append(f_not(arm_formula(scrut, arms[j])))
+    return out
+
+
 def cond(e):
     """Formula of a boolean expression."""
     e = unwrap(e)
@@ -117,14 +183,15 @@ def cond(e):
 
 def arms_true_formula(m):
     fs = []
-    prev = []
-    for a in m["arms"]:
-        me = arm_formula(m["scrut"], a)
+    arms = m["arms"]
+    for i, a in enumerate(arms):
+        earlier = _earlier_arms_not_taken(m["scrut"], arms, i)
         if is_catch_all(a["pat"]) and "guard" not in a:
-            me = f_and([f_not(p) for p in prev])
+            me = f_and(earlier)
+        else:
+            me = f_and([arm_formula(m["scrut"], a)] + earlier)
         if is_bool_lit(a["body"], True):
             fs.append(me)
-        prev.append(arm_formula(m["scrut"], a))
     return f_or(fs)
 
 
@@ -165,15 +232,18 @@ def div(e):
         if "AwaitDesugar" in src:
             return div(e["scrut"])
         parts = [div(e["scrut"])]
-        prev = []
-        for a in e["arms"]:
+        arms = e["arms"]
+        for i, a in enumerate(arms):
             d = div(a["body"])
+            if "guard" in a:
+                d = f_or([d, div_cond(a["guard"])])
             if d != FALSE:
-                me = arm_formula(e["scrut"], a)
-                if is_catch_all(a["pat"]) and "guard" not in a and prev:
-                    me = f_and([f_not(p) for p in prev])
+                earlier = _earlier_arms_not_taken(e["scrut"], arms, i)
+                if is_catch_all(a["pat"]) and "guard" not in a and i > 0:
+                    me = f_and(earlier)
+                else:
+                    me = f_and([arm_formula(e["scrut"], a)] + earlier)
                 parts.append(f_and([me, d]))
-            prev.append(arm_formula(e["scrut"], a))
         return f_or(parts)
     if k == "call" and is_never_call(e):
         return TRUE
@@ -252,6 +322,9 @@ def _visit(node, is_sink, conds, out):
         c = node["cond"]
         _visit(c, is_sink, conds, out)
         f = cond(c)
+        dc = div_cond(c)
+        if dc != FALSE:
+            conds = conds + [f_not(dc)]     # the condition was evaluated completely (`if f()? {..}`)
         _visit(node["then"], is_sink, conds + [f], out)
         if "else" in node:
             _visit(node["else"], is_sink, conds + [f_not(f)], out)
@@ -261,18 +334,19 @@ def _visit(node, is_sink, conds, out):
         _visit(node["scrut"], is_sink, conds, out)
         if "TryDesugar" in src or "AwaitDesugar" in src:
             return
-        prev = []
-        for a in node["arms"]:
-            me = arm_formula(node["scrut"], a)
-            extra = [me]
+        ds = div(node["scrut"])
+        if ds != FALSE:
+            conds = conds + [f_not(ds)]     # the scrutinee was evaluated completely (`match f()? {..}`)
+        arms = node["arms"]
+        for i, a in enumerate(arms):
+            earlier = _earlier_arms_not_taken(node["scrut"], arms, i)
             if is_catch_all(a["pat"]) and "guard" not in a:
-                extra = [f_not(p) for p in prev]
+                extra = earlier
             else:
-                extra = [me] + [f_not(p) for p in prev if _could_overlap(p, me)]
+                extra = [arm_formula(node["scrut"], a)] + earlier
             if "guard" in a:
-                _visit(a["guard"], is_sink, conds + [("leaf", "arm", (node["scrut"], a["pat"]))], out)
+                _visit(a["guard"], is_sink, conds + [("leaf", "arm", (node["scrut"], a["pat"]))] + earlier, out)
             _visit(a["body"], is_sink, conds + extra, out)
-            prev.append(arm_formula(node["scrut"], a))
         return
     if k == "blockexpr":
         return _visit(node["b"], is_sink, conds, out)
